@@ -473,6 +473,8 @@ class Check(PropertyCheck):
             {'to': name + '.gz', 'from': name, 'gz': True, 'fmt': None, 'mode': 'infer_gz_name'},
             {'to': 'copygz.dat', 'from': name, 'gz': True, 'fmt': None, 'mode': 'infer_gz_content'},
             {'to': 'copygz2.dat', 'from': name, 'gz': True, 'fmt': fmt, 'mode': 'given_gz'},
+            # a gzip copy whose name ends in .gz but carries no registered extension before it
+            {'to': 'backup.dat.gz', 'from': name, 'gz': True, 'fmt': None, 'mode': 'infer_gz_content_dotgz'},
             # the SAME absolute path in every case of this process (its content changes format from case to case):
             # anything remembered about a path from an earlier read must not survive
             {'to': 'reuse.dat', 'from': name, 'gz': False, 'fmt': None, 'mode': 'infer_content', 'fixed': True},
@@ -528,6 +530,10 @@ class Check(PropertyCheck):
                 before = snapshot(d)
                 regs = [build(s) for s in specs]
                 kw = dict(case['opts'])
+                # the destination as a pathlib.Path (when the format is named: inferring it from a Path is not supported)
+                if case['fmt_arg'] in FORMATS and (len(case['name']) + len(specs) + int(case['ow'])) % 3 == 0:
+                    import pathlib
+                    dest = pathlib.Path(dest)
                 try:
                     if case['api'] == 'Region':
                         regs[0].write(dest, format=case['fmt_arg'], overwrite=case['ow'], **kw)
@@ -804,7 +810,7 @@ class Check(PropertyCheck):
                 m = r['mode']
                 required = (m in ('given', 'given_gz')
                             or (m in ('infer_name', 'infer_gz_name') and own_ext)
-                            or (m in ('infer_content', 'infer_gz_content') and real.get('signed')))
+                            or (m in ('infer_content', 'infer_gz_content', 'infer_gz_content_dotgz') and real.get('signed')))
                 if m in ('infer_name', 'infer_gz_name') and not own_ext:
                     # no extension of this format: inference falls back to the content signature
                     foreign = any(name.lower().endswith(e) for f2, es in self._exts().items() if f2 != fmt for e in es)
